@@ -1027,24 +1027,42 @@ func ConvertZToMinMaxAltitudekey(inputIndex int64, inputZoom int64, outputZoom i
 	if err != nil {
 		return 0, 0, err
 	}
-	upperBound, err := convertZToMinAltitudekey(inputIndex+1, inputZoom, outputZoom, zBaseExponent, zBaseOffset)
+	upperBound, err := convertZToMaxAltitudekey(inputIndex, inputZoom, outputZoom, zBaseExponent, zBaseOffset)
 	if err != nil {
 		return 0, 0, err
 	}
 
-	// Determine the vertical index/indices to return.
-	// a) always return the lowerBound index. Regardless of the difference between the inputZoom and outputZoom,
-	// mathematically the altitude associated with the lower bounds will always satisfy the solution set.
-	// b) cycle through indices from lowerBounds+1 to upperBounds with i to find any possible additional indexes
-	// that satisfy the solution set.
-	// but only output (minimum key, maximum key) as (lowerBound, upperBound - 1)
-	minAltitudeKey = lowerBound
-	maxAltitudeKey = upperBound - 1
-	if minAltitudeKey > maxAltitudeKey {
-		return minAltitudeKey, minAltitudeKey, nil
-	} else {
-		return minAltitudeKey, maxAltitudeKey, nil
+	// a) the altitude of the bottom of the input voxel always satisfies the solution set: lowerBound
+	// b) every altitudekey up to the one holding the highest point of the input voxel intersects it: upperBound
+	return lowerBound, upperBound, nil
+}
+
+// convertZToMaxAltitudekey returns the altitudekey that holds the highest point of the input voxel.
+func convertZToMaxAltitudekey(inputIndex int64, inputZoom int64, outputZoom int64, zBaseExponent int64, zBaseOffset int64) (int64, error) {
+
+	// 1. top of the input voxel on the altitudekey scale, at the finer of 1m and the input voxel height so that it is exact
+	subMeterZoom := int64(0)
+	if inputZoom > consts.ZOriginValue {
+		subMeterZoom = inputZoom - consts.ZOriginValue
 	}
+	topIndex := common.CalculateArithmeticShift(inputIndex+1, consts.ZOriginValue+subMeterZoom-inputZoom)
+	topIndex += common.CalculateArithmeticShift(zBaseOffset, subMeterZoom)
+
+	// 2. altitudekey of the last point below the top
+	shift := outputZoom - zBaseExponent - subMeterZoom
+	var outputIndex int64
+	if shift >= 0 {
+		outputIndex = common.CalculateArithmeticShift(topIndex, shift) - 1
+	} else {
+		outputIndex = common.CalculateArithmeticShift(topIndex-1, shift)
+	}
+
+	// 3. Check to make sure outputIndex exists in the output system
+	if _, ok := validateIndexExists(outputIndex, outputZoom, false); !ok {
+		return 0, errors.NewSpatialIdError(errors.InputValueErrorCode, "output index does not exist with given outputZoom, zBaseExponent, and zBaseOffset")
+	}
+
+	return outputIndex, nil
 }
 
 func convertZToMinAltitudekey(inputIndex int64, inputZoom int64, outputZoom int64, zBaseExponent int64, zBaseOffset int64) (int64, error) {
